@@ -226,7 +226,7 @@ func c17(w *core.World, rep *core.Report) {
 	std(rep)
 	w.Cx.MaxVisits = 200
 	rep.Explain = "GPRS timers: the encoders are proved against independent decoders of TS 24.008 (spec.GPRSTimer2Dec/3Dec): for every duration in range the encoded octet decodes to at most the duration, and to exactly the duration when it is representable (finite disjunction over units). Session AMBR: strToAMBRUnit against the unit table; ModelsToSessionAMBR on every decimal string of 1..5 digits (value <= 65535) with each of the five units, uplink and downlink (symbolic digits; exact models of strings.Split and strconv.ParseUint on explicit strings). Time zone: getTimeZoneOffset against spec.TimeZoneSeconds; parseTimeZoneToNas on every string sign HH:MM[+D] of the quarter-hour grid (symbolic sign and hour digits, each minute value and adjustment): the octet decodes to 900*(quarters + 4*D) whenever that lies within +-79 quarters. Network names: Full/ShortNetworkNameToNas for every length 0..64 with symbolic 7-bit characters: length octet, coding octet with spare-bit count, every septet (spec.Septet, TS 23.038) equals the character."
-	jobs := ContractJobs(w, rep, []string{"nasConvert.GPRSTimer2ToNas", "nasConvert.GPRSTimer3ToNas", "nasConvert.strToAMBRUnit", "nasConvert.getTimeZoneOffset"})
+	jobs := ContractJobs(w, rep, []string{"nasConvert.GPRSTimer2ToNas", "nasConvert.GPRSTimer3ToNas", "nasConvert.strToAMBRUnit", "nasConvert.getTimeZoneOffset", "nasConvert.DecodeUniversalTimeAndLocalTimeZone"})
 	jobs = append(jobs, tzJobs(w, rep)...)
 	jobs = append(jobs, ambrJobs(w, rep)...)
 	maxN := 64
